@@ -340,7 +340,8 @@ func partB(r *rand.Rand, iterations int, stats map[string]int) (fail string, tra
 		}
 		pattern := ""
 		if r.Intn(3) == 0 {
-			pattern = []string{"s*", "*1*", "s?", "v*", "*"}[r.Intn(5)]
+			// with and without metacharacters, and with the backslash escape as the only special character
+			pattern = []string{"s*", "*1*", "s?", "v*", "*", "s\\1", "\\s\\2", "s1", "s[0-3]", "\\s1*"}[r.Intn(10)]
 		}
 		seen := map[string]bool{}
 		cursor := "0"
